@@ -131,6 +131,12 @@ def build_m2(fault, arg, acc, other, ios_pub, eph_seed, pin_seed):
         return tlv8.encode(it), honest, shared, acc_pub
     elif f == "right-key-other-id":
         kw["claimed_id"] = other.id
+    elif f == "right-key-id-variant":
+        # an identifier that only *resembles* the stored one, consistently signed by the right long-term key
+        v = ID_VARIANTS[arg](acc.id)
+        if v == acc.id:
+            v = acc.id + b"'"
+        kw["claimed_id"] = v
     elif f == "claimed-right-id-signed-other-id":
         it, _, _ = hap.pv_m2(acc, eph_seed, ios_pub, claimed_id=other.id)
         sig = dict(tlv8.decode(C.open_(hap.pv_enc_key(shared), C.nonce_str(b"PV-Msg02"), dict(it)[hap.T_ENC])))[hap.T_SIG]
@@ -415,6 +421,14 @@ def _work(item, seed, tier):
     return acc
 
 
+ID_VARIANTS = {
+    "lower": lambda i: i.lower(), "upper": lambda i: i.upper(), "swapcase": lambda i: i.swapcase(), "title": lambda i: i.title(),
+    "space-after": lambda i: i + b" ", "space-before": lambda i: b" " + i, "nul-after": lambda i: i + b"\x00", "shorter": lambda i: i[:-1],
+    "no-colons": lambda i: i.replace(b":", b""), "dashes": lambda i: i.replace(b":", b"-"), "empty": lambda i: b"",
+    "kelvin": lambda i: i.replace(b"k", "\u212a".encode()).replace(b"K", "\u212a".encode()), "fullwidth": lambda i: i.decode("latin-1").translate({ord("A"): 0xFF21, ord("a"): 0xFF41, ord("0"): 0xFF10}).encode(),
+}
+
+
 def faults(quick, seed):
     honest_len = 3 + 34 + 2 + (2 + 17 + 2 + 64 + 16)  # informative only; real length computed per record below
     f = [("honest", None)]
@@ -424,6 +438,7 @@ def faults(quick, seed):
     f += [("reseal:reorder", None), ("reseal:zero-sig", None)]
     f += [("reseal:sig-trunc", n) for n in (0, 1, 32, 63)]
     f += [("wrong-ltsk", None), ("other-accessory", None), ("right-key-other-id", None), ("claimed-right-id-signed-other-id", None)]
+    f += [("right-key-id-variant", v) for v in ID_VARIANTS]
     f += [("transcript", perm) for perm in PERMS]
     f += [("replay-sig", None), ("replay-sig-other-acc-eph", None), ("replay-whole", None), ("mitm-own-dh", None)]
     f += [("pk-len", n) for n in (0, 1, 31, 33, 64)] + [("pk-zero", None), ("pk-other", None)]
